@@ -68,9 +68,40 @@ def tokens_equal(a: list, b: list) -> str | None:
     return None
 
 
+HARD = [0.1 + 0.2, 1.1 * 1.1, 1 / 3, 2 / 3, 10 ** 16 + 1, 2 ** 53 + 1, 10 ** 22, 10 ** 23, 123456789012345678901234567890,
+        5e-324, 2.2250738585072014e-308, 1.7976931348623157e308, 1e16, 1e-7, 1.5e-10, 0.1, 1e22, 1e23, 9007199254740993.0,
+        4.35, 0.30000000000000004, 2.675, 1.0000000000000002, 0.9999999999999999, 3.141592653589793, -0.0, 100.0, 1e100,
+        6.02214076e23, 299792458, -17, 255, 1e-5, 0.0001, 123456.789]
+
+
+def hardify(e, rng):
+    """numeric content that is hard to print: 17-significant-digit doubles, big ints, extremes,
+    exponent forms (nothing is evaluated in this check)"""
+    c = wire.cls(e)
+    def pos():
+        v = abs(rng.choice(HARD))
+        return v if v > 0 and v != 1 else 0.30000000000000004
+    if c == "Constant":
+        return X.Constant(rng.choice(HARD) * rng.choice([1, -1])) if rng.random() < 0.6 else e
+    if c == "Variable":
+        return e
+    if c in ("Add", "Multiply"):
+        return e.__class__(*(hardify(a, rng) for a in e._inners))
+    if c in ("Minus", "Divide", "Power"):
+        return e.__class__(hardify(e._left, rng), hardify(e._right, rng))
+    if c in ("NthPower", "NthRoot"):
+        return e.__class__(hardify(e._inner, rng), rng.choice([e._parameter, 10 ** 6, 17, 2 ** 40]))
+    if c in ("Exponential", "Logarithm"):
+        return e.__class__(hardify(e._inner, rng), base=pos() if rng.random() < 0.5 else e._parameter)
+    return e.__class__(hardify(e._inner, rng))
+
+
 def gen_cases(rng, tier: str) -> list[dict]:
     cases = []
     for origin, e in common.expr_stream(rng, tier, common.sizes(tier, 300, 4000), depth_q=4, depth_t=6):
+        if rng.random() < 0.6:
+            e = hardify(e, rng)
+            origin = "hard-numbers"
         kind, m = mutate(e, rng)
         cases.append({"origin": origin.split(":")[0], "e": wire.expr(e), "m": wire.expr(m), "mkind": kind})
     return cases
@@ -149,7 +180,7 @@ def points(rep: Report) -> None:
     work = []
     for _ in range(150):
         ns = rng.sample(names, rng.randint(0, 4))
-        d = {n: rng.choice([1, 2.5, -3, 0.0, -0.125, 1e22, 7, 1e-7]) for n in ns}
+        d = {n: rng.choice([1, 2.5, -3, 0.0, -0.125, 1e22, 7, 1e-7] + HARD) for n in ns}
         if any(keyword.iskeyword(n) or not n.isidentifier() for n in ns):
             continue
         asc = all(n.isascii() for n in ns)
